@@ -46,6 +46,11 @@ func runC13(b *fw.B) {
 		rng := b.Rng
 		sc := scenario{Preset: []string{"minimal", "minimal", "custom", "mainnet"}[rng.IntN(4)], ForkEpochs: [4]uint64{ff, ff, ff, ff}}
 		zspec := specFor(sc)
+		if sc.Preset == "custom" && rng.IntN(2) == 0 {
+			// an increment that does not divide the maximum effective balance: round down first, then cap (32 ETH needs a balance of 33)
+			zspec.EFFECTIVE_BALANCE_INCREMENT = 3_000_000_000
+			b.Inc("cases_with_an_increment_that_does_not_divide_the_maximum")
+		}
 		// genesis parameters around validity
 		zspec.MIN_GENESIS_ACTIVE_VALIDATOR_COUNT = view.Uint64View(1 + rng.IntN(40))
 		eth1Time := uint64(1_500_000_000 + rng.IntN(1000))
